@@ -2,6 +2,7 @@
 and revolve().  Only the *makespan* of a sequence is modelled (a real); the bookkeeping lists
 (sequence, memory, disk, storage) are never read by the functions under contract."""
 from pyvc.contracts import Contract, ClassSpec, LoopSpec
+from .shapes import SHAPE
 
 ASSUMED_NOTE = ("small accessor of the sequence algebra, assumed here and validated at run time on the "
                 "real classes by the bounded layer of C07 (rtc: sequence_algebra_contracts)")
@@ -20,6 +21,10 @@ def register(reg):
         "seq.basic_functions.Operation.__init__", self_class="Operation",
         params=[("self", "obj"), ("operation_type", "str"), ("operation_index", "any"), ("params", "any")],
         assumed=True, note=ASSUMED_NOTE,
+        # every construction site of the verified builders produces a well-shaped operation: the
+        # shape the Revolve-family iterator relies on (contracts/shapes.py) is an obligation there
+        requires=[("shape:" + l, e.replace("self.type", "operation_type").replace("self.index", "operation_index"))
+                  for l, e in SHAPE],
         sets={"type": "operation_type", "index": "operation_index", "params": "params"},
         ensures=[], frame=["type", "index", "params"], props=("C07",)))
     COST = [
